@@ -194,6 +194,7 @@ def check(prog: Program, tier: str) -> Result:
     res.explanation += LATER_RULES
     res.trusted_base = ["CPython ast", "path-condition engine sa/pathcond.py", "anchor table: " + ", ".join(f"{m}.{q}" for m, q in ANCHORS)]
     res.assumptions = ["core.is_valid_python is the validity oracle (its own shape is checked by R3.4)",
+                       "R3.8: no line consists of a lone continuation backslash followed only by blank lines up to the end of the text (collapsing those blank lines leaves the backslash at EOF)",
                        "strings are immutable: a validity fact about a variable version stays true"]
     st = SafeText(prog)
 
@@ -292,10 +293,12 @@ def check(prog: Program, tier: str) -> Result:
     res.floors["R3.2"] = 2
     res.floors["R3.8"] = 2
     res.floors["R3.9"] = 1
+    res.floors["R3.10"] = 1
     _r3_5(prog, res)
     _r3_6(prog, res, st)
     _r3_7(prog, res)
     _r3_9(prog, res)
+    _r3_10(prog, res)
     res.analysed.update({"anchor_functions": [f.fq for f in anchors], "pipeline_stages": len(pipeline_fns),
                          "safe_text_summaries": {f"{k[0]}.{k[1]}": v for k, v in sorted(st.summary.items())}})
     return res
@@ -323,6 +326,51 @@ def _re_can_match_newline(seq) -> bool:
         if name == "BRANCH" and any(_re_can_match_newline(b) for b in av[1]):
             return True
     return False
+
+
+def _r3_10(prog: Program, res: Result) -> None:
+    """format_code normalises the raw text (tabs, trailing blanks, blank lines) BEFORE it asks whether the text is valid, and
+    hands the text back when it is not.  If the normalisation is what broke a valid input (a form feed before a tab-indented
+    line, a continuation backslash before the final blank lines), the text handed back is broken while the input was fine.
+    Obligation at every early `return <text>` of format_code that is reached under `not valid(<text>)`: the returned variable
+    is the unmodified parameter, or the path also knows `not valid(<the unmodified input>)`."""
+    fn = prog.func("main", "format_code")
+    p = fn.posparams[0]
+    pa = PathAnalysis(prog, fn, term_hook=valid_hook(prog))
+    from ..pathcond import plain
+    n = 0
+    for r in walk_own(fn.node):
+        if not (isinstance(r, ast.Return) and isinstance(r.value, ast.Name)):
+            continue
+        worlds = pa.worlds_at(r)
+        v = r.value.id
+        for w in worlds:
+            tok = w.token(v)
+            invalid_here = any(f[0] == "lit" and not f[2] and f[1] == f"valid({tok})" for f in w.facts)
+            if not invalid_here:
+                continue
+            n += 1
+            is_input = tok == f"{p}#0"
+            # a variable that holds the unmodified parameter: bound once, to the parameter, before the parameter is rebound
+            input_known_invalid = any(f[0] == "lit" and not f[2] and f[1].startswith("valid(") and (f[1] == f"valid({p}#0)" or _holds_input(pa, fn, w, f[1][6:-1], p)) for f in w.facts)
+            ok = is_input or input_known_invalid
+            res.decide(ok, "R3.10", fn.loc(r), fn.fq, f"{norm(r)} # the text is known not to parse",
+                       "the input itself does not parse (or is returned as it came)" if ok else
+                       f"`{v}` was normalised before the validity test; nothing on this path says the INPUT was invalid: a valid text that the normalisation broke is handed back broken")
+            break
+    if n == 0:
+        res.undecided("R3.10", fn.loc(), fn.fq, "early return of an invalid text", "no such return found")
+
+
+def _holds_input(pa, fn, w, tok: str, p: str) -> bool:
+    """tok is a variable (version token) bound exactly once, directly to the parameter while it was still unmodified"""
+    from ..defuse import bindings
+    name = tok.split("#")[0]
+    defs = bindings(fn).get(name, [])
+    if len(defs) != 1 or defs[0][1] is None or not (isinstance(defs[0][1], ast.Name) and defs[0][1].id == p):
+        return False
+    worlds = pa.worlds_at(defs[0][0])
+    return bool(worlds) and all(x.token(p) == f"{p}#0" for x in worlds)
 
 
 def _r3_9(prog: Program, res: Result) -> None:
@@ -958,6 +1006,8 @@ def _sub_summary(prog: Program, st: SafeText) -> str:
 from ..selftest import Variant  # noqa: E402
 
 VARIANTS = [
+    Variant("normalised-text-handed-back-for-a-valid-input", "FIRE", "main",
+            "        if core.is_valid_python(unformatted_source):\n            return unformatted_source  # It is the layout changes above that broke it\n\n", "", "R3.10"),
     Variant("semicolon-purge-crosses-line-breaks", "FIRE", "processing", "        semicolon_anti_delimiters = re.findall(r\"^[ \\t]*;[ \\t]*\", source[end:])", "        semicolon_anti_delimiters = re.findall(r\"^\\s*;\\s*\", source[end:])", "R3.9"),
     Variant("semicolon-purge-with-a-negated-class", "SILENT", "processing", "        semicolon_anti_delimiters = re.findall(r\"^[ \\t]*;[ \\t]*\", source[end:])", "        semicolon_anti_delimiters = re.findall(r\"^[^\\S\\n]*;[^\\S\\n]*\", source[end:])"),
     Variant("blank-line-patterns-precompiled", "SILENT", "fixes",
